@@ -10,6 +10,7 @@
 #include <signal.h>
 #include <string.h>
 #include <sys/ioctl.h>
+#include <sys/resource.h>
 #include <sys/socket.h>
 #include <sys/stat.h>
 #include <sys/syscall.h>
@@ -385,6 +386,36 @@ static int drv_stats(int argc, char** argv) {
               rec["res"] = cl.resetStats();
             } else if (o == "sleep_us") {
               usleep(op["us"].asInt());
+            } else if (o == "fdflood") {
+              // run the process (service and clients share it) out of file descriptors with idle connections, let the service's
+              // accept() fail for a while, then give the descriptors back
+              struct rlimit old_lim;
+              getrlimit(RLIMIT_NOFILE, &old_lim);
+              int open_now = 0;
+              if (DIR* d = opendir("/proc/self/fd")) {
+                while (::readdir(d)) {
+                  ++open_now;
+                }
+                closedir(d);
+              }
+              struct rlimit low = old_lim;
+              low.rlim_cur = open_now + 6;
+              setrlimit(RLIMIT_NOFILE, &low);
+              std::vector<int> idle;
+              for (int i = 0; i < 64; ++i) {
+                int fd = raw_connect(sock);
+                if (fd < 0) {
+                  break;
+                }
+                idle.push_back(fd);
+              }
+              usleep(op.get("hold_us", 300000).asInt());
+              rec["idle_connections"] = (Json::UInt64)idle.size();
+              for (int fd : idle) {
+                ::close(fd);
+              }
+              setrlimit(RLIMIT_NOFILE, &old_lim);
+              usleep(2300000); // connections that were accepted but never spoke are dropped by the 2 s timeout
             } else if (o == "raw") {
               // raw protocol client: send bytes, optional behaviours
               int fd = raw_connect(sock);
@@ -717,6 +748,9 @@ static int drv_watch(int argc, char** argv) {
           }
         }
         ticks_done++;
+        if (scn.isMember("tick_us")) {
+          usleep(scn["tick_us"].asInt()); // a main loop that comes round slowly: many changes pile up between two ticks
+        }
         seeded_yield(rng, scn.get("yield_us", 200).asInt());
       }
     });
@@ -796,27 +830,25 @@ static int drv_watch(int argc, char** argv) {
     // ---- logical quiescence: watcher blocked in epoll_wait, no pending inotify bytes, dir watch re-armed
     bool quiet = false;
     uint64_t waited_ms = 0;
+    int64_t idle_since = -1; // tick count at which the watcher was first seen idle with nothing pending
     for (; waited_ms < 20000; waited_ms += 5) {
-      uint64_t t0 = ticks_done.load();
       usleep(5000);
-      bool all_idle = false;
+      bool idle = false;
       for (pid_t t : other_tids()) {
         if (thread_blocked_in(t, SYS_epoll_wait)) {
-          all_idle = true;
+          idle = true;
         }
       }
-      if (all_idle && inotify_pending() == 0 && ticks_done.load() >= t0 + 2) {
-        // two more full ticks passed while the watcher was idle; check again that it is still idle
-        bool still = false;
-        for (pid_t t : other_tids()) {
-          if (thread_blocked_in(t, SYS_epoll_wait)) {
-            still = true;
-          }
-        }
-        if (still && inotify_pending() == 0) {
-          quiet = true;
-          break;
-        }
+      if (!idle || inotify_pending() != 0) {
+        idle_since = -1;
+        continue;
+      }
+      if (idle_since < 0) {
+        idle_since = (int64_t)ticks_done.load();
+      } else if ((int64_t)ticks_done.load() >= idle_since + 2) {
+        // two more full ticks passed while the watcher stayed idle at every sample
+        quiet = true;
+        break;
       }
     }
     out["quiescent"] = quiet;
